@@ -416,6 +416,8 @@ func runC04(c *Ctx) {
 	ruleUsedMarkingMatchesEmission(c, "C04.13")
 	// C04.14 templates are complete when built (nothing patches a node produced elsewhere)
 	ruleTemplatesNotPatched(c, "C04.14")
+	// C04.15 variadic providers are called with arg...
+	ruleVariadicProviderCalls(c, "C04.15")
 
 	// C04.10 user identifiers reach the allocator (shared with C12): otherwise a generated local can shadow a user name
 	{
